@@ -356,6 +356,31 @@ func crossPkgAccessProgs(e *Env) []*Program {
 		b.P.Feat = map[string]string{"matrix": "xpkg", "what": "provider in an internal package: " + v}
 		progs = append(progs, b.P)
 	}
+	for _, v := range []string{"star", "named-pub", "named-priv", "fieldsof-priv"} {
+		// a type of the injector's package defined over a struct of ANOTHER package that has an
+		// unexported field: that field stays out of reach
+		p := &Program{ID: "xp_localtype_" + v, Module: ModulePath, Extra: map[string]string{}, Feat: map[string]string{"matrix": "xpkg", "what": "local type over a foreign struct with an unexported field: " + v}, RawDriver: true, RejectOK: true}
+		p.Pkgs = []*Pkg{{Name: "app", Dir: "app"}, {Name: "libx", Dir: "libx"}}
+		p.Extra["1/lib.go"] = "package libx\n\ntype Hid struct {\n\tPub  int\n\tpriv string\n}\n\nfunc (h Hid) Priv() string { return h.priv }\n"
+		p.Extra["0/decl.go"] = "package app\n\nimport \"" + p.ImportPath(1) + "\"\n\ntype L libx.Hid\n\nfunc NewInt() int { return 1 }\n\nfunc NewStr() string { return \"s\" }\n\nfunc NewL() L { return L{Pub: 2} }\n"
+		build := map[string]string{
+			"star":          "NewInt, NewStr, wire.Struct(new(L), \"*\")",
+			"named-pub":     "NewInt, wire.Struct(new(L), \"Pub\")",
+			"named-priv":    "NewStr, wire.Struct(new(L), \"priv\")",
+			"fieldsof-priv": "NewL, wire.FieldsOf(new(L), \"priv\")",
+		}[v]
+		res, zero := "L", "L{}"
+		if v == "fieldsof-priv" {
+			res, zero = "string", "\"\""
+		}
+		p.Extra["0/wire.go"] = "//go:build wireinject\n// +build wireinject\n\npackage app\n\nimport \"github.com/google/wire\"\n\nfunc Init() " + res + " {\n\twire.Build(" + build + ")\n\treturn " + zero + "\n}\n"
+		p.Extra["0/zz_driver.go"] = "//go:build !wireinject\n// +build !wireinject\n\npackage app\n\nfunc Scenarios() {}\n"
+		p.Note = "xpkg-local-type-over-foreign-struct-" + v
+		if v == "named-pub" {
+			p.RejectOK = false
+		}
+		progs = append(progs, p)
+	}
 	{
 		// control: everything exported
 		b := NewPB("xp_ok", "app", "libx")
